@@ -1,5 +1,5 @@
 /* C15: STEPattribute::STEPread on a MISSING value ("$", or nothing before the delimiter), for one base kind per query
- * (KIND: 0 INTEGER, 1 REAL, 2 NUMBER, 3 STRING, 4 BOOLEAN = "every other kind"), with symbolic OPTIONAL flag, strict flag
+ * (KIND: 0 INTEGER, 1 REAL, 2 NUMBER, 3 STRING; 4 BOOLEAN, 5 LOGICAL, 6 BINARY = "every other kind"), with symbolic OPTIONAL flag, strict flag
  * and text form.  Decision table of the property:
  *   OPTIONAL                      -> accepted (no error)
  *   required, strict              -> INCOMPLETE
